@@ -38,7 +38,7 @@ var SQLExt = append(append([]string{}, SQLCore...), []string{
 	"1=1", "'a'='a", "a.b", "select.a", "select`a`", "`a`.`b`", "{", "}", "{`a`", "{a b}", "``",
 	"\\1", "\\%1", "\\", "\t", "\v", "\f", "\r",
 	"aaaaaaaaaaaaaaaaaaaaaaaaaaaaaaa", "aaaaaaaaaaaaaaaaaaaaaaaaaaaaaaaa", "1111111111111111111111111111111", "11111111111111111111111111111111",
-	"\xc5\xbfelect", "un\xc4\xb1on",
+	"\xc5\xbfelect", "un\xc4\xb1on", "\xc5\xbfleep", "\xc4\xb1n", "l\xc4\xb1ke", "u\xc5\xbfer", "\xc5\xbf", "\xc4\xb1", "\xe2\x84\xaa", "\xc3\x9f", "\xc4\xb0nto",
 }...)
 
 // HTMLBytes: the HTML-significant byte alphabet.
@@ -55,6 +55,8 @@ var HTMLFull = append(append([]string{}, HTMLBytes...), []string{
 	"xmlns", "xlink", "xlink:href", "attributename", "by", "to", "from", "action", "datasrc", "javascript:", "JAVASCRIPT:", "java", "data:", "DATA", "vbscript:", "view-source:",
 	"&#106;", "&#x6a", "&#X6A;", "&#", "&#x", "&#0", "&#x0", "&#106", "&#00000106;", "&#x1000100;", "&", "&amp;",
 	"&#60;", "&#x3c;", "&#060", "&#61;", "&#x3D;", "&lt;", "&#62;", "&#34;", "&#39;", "&#x60;", "&#47;",
+	// non-ASCII letters that Go's strings.ToUpper folds onto ASCII (U+017F -> S, U+0131 -> I) and other multi-byte letters
+	"\xc5\xbf", "\xc4\xb1", "\xc5\xbfcript", "l\xc4\xb1nk", "x\xc5\xbf\xc5\xbf", "ba\xc5\xbfe", "\xc5\xbftyle", "on\xc5\xbfubmit", "\xc4\xb1frame", "\xe2\x84\xaa", "\xc3\x9f", "\xc4\xb0",
 	"iframe", "embed", "object", "meta", "link", "base", "applet", "frame", "xss", "noscript", "isindex", "comment", "listener", "handler", "vmlframe", "frameset",
 }...)
 
